@@ -95,7 +95,7 @@ impl Prop for C11 {
         ]
     }
     fn cases(tier: Tier) -> u32 {
-        tier.pick(6_000, 120_000)
+        tier.pick(6_000, 400_000)
     }
     fn strategy(tier: Tier) -> BoxedStrategy<Case> {
         let mut p = params(tier);
